@@ -303,6 +303,34 @@ def h_dict_get(q: int, ka: int, kb: int, kc: int) -> bool:
     return fin(actual in tags(val))
 
 
+def public_replay(template, data, args, kwargs):
+    """Public route for a subscript counterexample: the same tuple type written as an annotation, the
+    subscript checked by the real visitor through pyanalyze.ast_annotator.annotate_code."""
+    if template != "h_getitem_int" or data["typ"] != "tuple":
+        return {"note": "no public route generated for this template"}
+    import ast
+    import contextlib
+    import io
+
+    from pyanalyze.ast_annotator import annotate_code
+
+    key = args[0]
+    members = []
+    for many, t in data["layout"]:
+        members.append(f"Unpack[Tuple[T{t}, ...]]" if many else f"T{t}")
+    classes = "".join(f"class T{i}: pass\n" for i in range(6))
+    src = ("from typing import Tuple\nfrom typing_extensions import Unpack\n" + classes
+           + f"def f(t: Tuple[{', '.join(members)}]):\n    x = t[{key}]\n    return x\n")
+    with contextlib.redirect_stderr(io.StringIO()):
+        tree = annotate_code(src)
+    inferred = None
+    for node in ast.walk(tree):
+        if isinstance(node, ast.Assign):
+            inferred = str(node.value.inferred_value)
+    return {"snippet": src, "inferred_for_subscript": inferred,
+            "runtime": "with the variadic lengths of the counterexample the element has the marker class the harness reports"}
+
+
 def _layouts(maxlen: int, max_many: int = 3):
     for n in range(0, maxlen + 1):
         for manys in itertools.product([0, 1], repeat=n):
